@@ -35,9 +35,9 @@ def flag_stores(ctx, flag):
 
 
 def run(ctx):
-    ctx.rule("C11.guard", "every modification of triggered / activated happens with its paired mutex held", floor=4)
+    ctx.rule("C11.guard", "every modification of triggered / activated happens with its paired mutex held", floor=2)
     ctx.step(check_guarded_fields, ctx, "C11.guard", CLS)
-    ctx.rule("C11.cv", "waits: lock owns the matching mutex, predicate-form, predicate reads the paired flag only", floor=8)
+    ctx.rule("C11.cv", "waits: lock owns the matching mutex, predicate-form, predicate reads the paired flag only", floor=4)
     for cv, mtx, flag in PAIRS:
         ctx.step(check_waits, ctx, "C11.cv", CLS, cv, mtx, [flag])
     ctx.step(wake, ctx)
@@ -50,7 +50,7 @@ def run(ctx):
 
 def wake(ctx):
     rid = "C11.wake"
-    ctx.rule(rid, "raising a flag is followed on every path by notify_all on the matching condition variable", floor=2)
+    ctx.rule(rid, "raising a flag is followed on every path by notify_all on the matching condition variable", floor=1)
     for cv, mtx, flag in PAIRS:
         raises = [(f, top, op) for f, top, op, val in flag_stores(ctx, flag) if val is True or val is None]
         if not raises:
@@ -63,7 +63,7 @@ def wake(ctx):
 
 def who(ctx):
     rid = "C11.who"
-    ctx.rule(rid, "who-writes table of the two flags; trigger() does nothing on an inactive variable", floor=5)
+    ctx.rule(rid, "who-writes table of the two flags; trigger() does nothing on an inactive variable", floor=3)
     want = {("triggered", True): {"trigger"}, ("triggered", False): {"activate"},
             ("activated", True): {"activate"}, ("activated", False): {"reset"}}
     for flag in ("triggered", "activated"):
@@ -94,7 +94,7 @@ def who(ctx):
 def order(ctx):
     rid = "C11.order"
     ctx.rule(rid, "activate(): triggered is cleared before activated is raised; reset(): trigger() is called with "
-             "activeLock released", floor=2)
+             "activeLock released", floor=1)
     fb, eng = ctx.fb, ctx.eng
     for f in fb.functions(rec=CLS, name="activate"):
         clear = [op for op in atomic_ops(f) if atomic_field_of(f, op) == (CLS, "triggered") and op["op"] == "store"]
